@@ -1,0 +1,18 @@
+//go:build verif
+
+package ipa
+
+import "github.com/crate-crypto/go-ipa/bandersnatch/fr"
+
+// VerifWeights returns copies of the precomputed barycentric tables.
+func (preComp *PrecomputedWeights) VerifWeights() (barycentricWeights, invertedDomain []fr.Element) {
+	return append([]fr.Element(nil), preComp.barycentricWeights...), append([]fr.Element(nil), preComp.invertedDomain...)
+}
+
+// VerifNumRounds returns the configured number of rounds.
+func (ic *IPAConfig) VerifNumRounds() uint32 { return ic.numRounds }
+
+// VerifLabels returns the package-level Fiat-Shamir labels (the slices themselves).
+func VerifLabels() [][]byte {
+	return [][]byte{labelDomainSep, labelC, labelInputPoint, labelOutputPoint, labelW, labelL, labelR, labelX}
+}
